@@ -18,6 +18,7 @@ import json
 import logging
 
 import common as C
+import fault_probes as FP
 from props import dispcommon as D
 
 MANIFEST = {
@@ -249,6 +250,9 @@ def reentrant_cases(rng, n):
     return out
 
 
+PROBE_JUDGES = [FP.callback_exception_policy]
+
+
 def run(ctx, model=True):
     logging.getLogger("bluesky").setLevel(logging.CRITICAL)
     res = C.Result(
@@ -289,6 +293,7 @@ def run(ctx, model=True):
         for sig, what in reentrant_probe(pc):
             res.violations.append(C.Violation(sig, "implementation-only probe: " + what, pc))
     res.notes.append("re-entrant subscribe/unsubscribe during dispatch is probed on the implementation only (outside the Lean model)")
+    FP.run_probes(ctx, res, PROBE_JUDGES, ["close"], 40, 800)
     return res
 
 
@@ -302,6 +307,8 @@ def replay(ctx, data):
     case = data.get("case")
     if not case:
         return res
+    if FP.is_probe(data):
+        return FP.replay_probe(ctx, data, PROBE_JUDGES)
     if case.get("probe") == "reentrant":
         for sig, what in reentrant_probe(case):
             res.violations.append(C.Violation(sig, what, case))
